@@ -191,7 +191,10 @@ class History:
             return {"step": "store", "ok": False}
         i = rng.choice(ms) if member is None else member
         want = np.asarray(self.g._vals[i])
-        k = len(self.targets)
+        # every attempt gets its own path: a store call that was refused may already have re-pointed the
+        # member's lazy array at its path, and a later compute of that member then (legitimately) writes there
+        self.nstore_attempts = getattr(self, "nstore_attempts", 0) + 1
+        k = self.nstore_attempts
         path = os.path.join(self.wd, f"target{k}.zarr")
         api = rng.choice(["store", "to_zarr"])
         lazy = rng.random() < 0.35
